@@ -6,6 +6,8 @@ package motion
 // representation, its materialisation, and the reference detector written from the statement of C07.
 
 import (
+	"io"
+	"log"
 	"fmt"
 	"time"
 
@@ -13,6 +15,11 @@ import (
 	"github.com/TheCacophonyProject/go-cptv/cptvframe"
 	"pgregory.net/rapid"
 )
+
+func init() {
+	// with verbose = true the detector reports statistics through the standard logger
+	log.SetOutput(io.Discard)
+}
 
 type vfDetCfg struct {
 	W, H, Edge    int
@@ -23,6 +30,7 @@ type vfDetCfg struct {
 	Dynamic       bool
 	TMin, TMax    uint16
 	PreviewFrames int // preview-secs*fps as seen by the detector
+	Verbose       bool `json:",omitempty"` // the logging-only 'verbose' setting: must not change any result
 }
 
 type vfMut struct {
@@ -43,7 +51,7 @@ func (c vfDetCfg) motionConf() config.ThermalMotion {
 	return config.ThermalMotion{
 		DynamicThreshold: c.Dynamic, TempThreshMin: c.TMin, TempThreshMax: c.TMax, TempThresh: c.T,
 		DeltaThresh: c.D, CountThresh: c.Count, FrameCompareGap: c.Gap, UseOneDiffOnly: c.OneDiff,
-		TriggerFrames: 1, WarmerOnly: c.Warmer, EdgePixels: c.Edge,
+		TriggerFrames: 1, WarmerOnly: c.Warmer, EdgePixels: c.Edge, Verbose: c.Verbose,
 	}
 }
 
@@ -201,6 +209,7 @@ func vfGenDetCfg(t *rapid.T, dynamic bool, big bool) vfDetCfg {
 	c.OneDiff = rapid.Bool().Draw(t, "onediff")
 	c.Dynamic = dynamic
 	c.PreviewFrames = rapid.IntRange(0, 6).Draw(t, "previewframes")
+	c.Verbose = rapid.IntRange(0, 3).Draw(t, "verbose") == 0
 	if !dynamic && rapid.IntRange(0, 3).Draw(t, "stray_bounds") == 0 {
 		// temp-thresh-min / max are dynamic-threshold settings: with a fixed threshold they must not matter
 		c.TMin = rapid.SampledFrom([]uint16{0, 500, 3200, 40000}).Draw(t, "stray_tmin")
